@@ -1401,6 +1401,22 @@ fn check(ctx: &Ctx) -> i32 {
         check_c_inner(&inner, l)
     });
 
+    // every code point of a menu (all of U+0000..U+00A0 and a few above) as the middle character of
+    // an argument, in the plain and the double-quoted spelling (the alphabet above has one control
+    // character; escapes are produced per character class)
+    let menu: Vec<char> = (0u32..=0xA0).chain([0xAD, 0x2028, 0x2029, 0xFEFF, 0xFFFD, 0xD7FF, 0xE000, 0x10FFFF]).filter_map(char::from_u32).collect();
+    ctx.bound("c_code_point_menu", menu.len());
+    ctx.par_range("c-code-points", menu.len() as u64 * 2, 16, |i, l| {
+        let ch = menu[(i / 2) as usize];
+        // characters that are part of the argument syntax itself are covered by the sweep above
+        if [',', '\\', '"', '\'', '`', ')', '(', '\n', '\r'].contains(&ch) {
+            return;
+        }
+        let s = format!("a{}b", ch);
+        let spelled = if i % 2 == 0 { s } else { format!("\"{}\"", s) };
+        check_c_inner(&place(&spelled, 0), l)
+    });
+
     // ---- (d) ----
     let nb = BODIES.len() as u64;
     ctx.bound("d_bodies", json!(BODIES));
